@@ -1,7 +1,10 @@
 package main
 
 import (
+	"go/constant"
+	"regexp"
 	"sort"
+	"strconv"
 	"strings"
 
 	"golang.org/x/tools/go/ssa"
@@ -283,5 +286,119 @@ func checkC13(c *Check) {
 	}
 	if nmsg != 1 {
 		c.Ob("R2", "exactly one bid message construction site", run.Pos(), false, "sites: "+itoa(nmsg))
+	}
+	c.notFoundClassifier(run)
+}
+
+// notFoundClassifier (R1): the text pattern that turns a failed existing-bid query into "no bid yet" must single out
+// the market module's bid-not-found error: its literal core occurs in that error's registered message and in no other
+// error message registered by an akash module (otherwise "order not found", "lease not found", ... are taken as
+// licence to bid again).
+func (c *Check) notFoundClassifier(run *ssa.Function) {
+	l := c.L
+	// registered error messages, by variable
+	msgs := map[string]string{}
+	for path, sp := range l.SSA {
+		if !strings.HasPrefix(path, akash+"/x/") || !strings.HasSuffix(path, "/types") {
+			continue
+		}
+		ini := sp.Func("init")
+		if ini == nil {
+			continue
+		}
+		eachInstr(ini, func(i ssa.Instruction) {
+			st, ok := i.(*ssa.Store)
+			if !ok {
+				return
+			}
+			g, isG := st.Addr.(*ssa.Global)
+			cv, _ := callOf(st.Val)
+			if !isG || cv == nil || !strings.HasSuffix(calleeFull(cv), "types/errors.Register") {
+				return
+			}
+			if k, isK := cv.Call.Args[2].(*ssa.Const); isK && k.Value != nil && k.Value.Kind() == constant.String {
+				msgs[strings.TrimPrefix(path, akash+"/")+"."+g.Name()] = constant.StringVal(k.Value)
+			}
+		})
+	}
+	if len(msgs) < 40 {
+		c.Fail("C13-R1 classifier: only %d registered error messages resolved", len(msgs))
+	}
+	n := 0
+	for _, call := range callsIn(run, false) {
+		if calleeFull(call) != "(*regexp.Regexp).MatchString" {
+			continue
+		}
+		n++
+		pat, found := "", false
+		if ld, ok := call.Common().Args[0].(*ssa.UnOp); ok {
+			if g, isG := ld.X.(*ssa.Global); isG {
+				if ini := g.Pkg.Func("init"); ini != nil {
+					eachInstr(ini, func(i ssa.Instruction) {
+						if st, ok := i.(*ssa.Store); ok && st.Addr == ssa.Value(g) {
+							if cv, _ := callOf(st.Val); cv != nil && strings.HasPrefix(calleeFull(cv), "regexp.MustCompile") {
+								if k, isK := cv.Call.Args[0].(*ssa.Const); isK && k.Value != nil && k.Value.Kind() == constant.String {
+									pat, found = constant.StringVal(k.Value), true
+								}
+							}
+						}
+					})
+				}
+			}
+		}
+		if !found {
+			c.Ob("R1", "existing-bid query: not-found classifier is a constant pattern", call.Pos(), false, "pattern "+Sym(call.Common().Args[0])+" is not a package-level constant regexp")
+			continue
+		}
+		// literal core: the pattern with anchors and wildcards removed; any other metacharacter is not understood
+		var lits []string
+		for _, piece := range regexp.MustCompile(`\^|\$|\.\+|\.\*`).Split(pat, -1) {
+			if piece != "" {
+				lits = append(lits, piece)
+			}
+		}
+		understood := len(lits) > 0
+		for _, lit := range lits {
+			if regexp.QuoteMeta(lit) != lit {
+				understood = false
+			}
+		}
+		target := msgs["x/market/types.ErrBidNotFound"]
+		ok := understood && target != ""
+		why := "pattern " + strconv.Quote(pat) + " is not a plain literal between wildcards"
+		if ok {
+			for _, lit := range lits {
+				if !strings.Contains(target, lit) {
+					ok = false
+					why = "pattern " + strconv.Quote(pat) + " does not match the market module's bid-not-found message " + strconv.Quote(target) + ": a missing bid is treated as a failed query and no bid is ever placed"
+				}
+			}
+		}
+		if ok {
+			var others []string
+			for name, m := range msgs {
+				if name == "x/market/types.ErrBidNotFound" {
+					continue
+				}
+				all := true
+				for _, lit := range lits {
+					if !strings.Contains(m, lit) {
+						all = false
+					}
+				}
+				if all {
+					others = append(others, name)
+				}
+			}
+			sort.Strings(others)
+			if len(others) > 0 {
+				ok = false
+				why = "pattern " + strconv.Quote(pat) + " also matches " + strings.Join(others, ", ") + ": after such a failure the provider bids although it may already hold a bid on the order"
+			}
+		}
+		c.Ob("R1", "existing-bid query: only the bid-not-found error is taken as 'no bid yet'", call.Pos(), ok, why)
+	}
+	if n != 1 {
+		c.Ob("R1", "existing-bid query: exactly one error classifier", run.Pos(), false, "sites: "+itoa(n))
 	}
 }
